@@ -90,7 +90,10 @@ def run_writer(path, case, kill_at):
 			os.close(r)
 			killer = _Killer(kill_at)
 			_instrument(killer)
-			dump_signatures(path, obj)
+			kw = {}
+			if case.get('compression'):
+				kw['compression'] = case['compression']
+			dump_signatures(path, obj, **kw)
 			os.write(w, ','.join(killer.trace).encode())
 		finally:
 			os._exit(0)
@@ -146,17 +149,22 @@ def run(ctx):
 	def sub(case, tag):
 		lines, pf = safe_check(check, ctx, case)
 		nt = case.pop('_nt', False)
-		ctx.submit(case, lines, nontrivial=nt, tags=[tag, f'fast={case["fast"]}', f'payload={case["nsigs"]}x{case["siglen"]}'], pyfails=pf)
+		ctx.submit(case, lines, nontrivial=nt, tags=[tag, f'fast={case["fast"]}', f'payload={case["nsigs"]}x{case["siglen"]}', f'compression={case.get("compression")}'], pyfails=pf)
 
 	payloads = [(3, 4, 5), (7, 20, 6), (1, 0, 5)]
-	big = [(60, 40000, 11), (200, 6000, 12)]    # ~ 4.8 MB (u4) / ~ 3.2 MB (u4)
-	for fast in (True, False):
+	big = [(60, 40000, 11), (200, 6000, 12), (1500, 30, 8), (40, 100000, 16)]    # multi-megabyte values; > 1024 signatures; > 2^20 values (u8)
+	for fast, comp in ((True, None), (False, None), (False, 'gzip'), (True, 'lzf')):
 		for (nsigs, siglen, k) in payloads + big:
-			base = {'fast': fast, 'nsigs': nsigs, 'siglen': siglen, 'k': k, 'seed': rng.randrange(10 ** 6)}
+			if comp and (nsigs, siglen, k) in payloads[1:]:
+				continue
+			base = {'fast': fast, 'nsigs': nsigs, 'siglen': siglen, 'k': k, 'seed': rng.randrange(10 ** 6), 'compression': comp}
 			sub(dict(base, kind='trace'), 'trace')
 			length = 13 + (2 if fast else 4 + nsigs)     # len(writerTrace)
-			if (nsigs, siglen, k) in big and ctx.tier == 'quick':
-				points = sorted(set([0, 1, 5, 10, 11, 12, 13, 14, 15] + [rng.randrange(length) for _ in range(6)] + list(range(length - 4, length + 1))))
+			if (nsigs, siglen, k) in big:
+				nsample = ctx.q(6, 60)
+				points = sorted(set([0, 1, 10, 12, 13, 14, 15] + [rng.randrange(length) for _ in range(nsample)] + [length * 3 // 4, length - 40, length - 3, length - 2, length - 1, length]))
+				if ctx.tier == 'thorough' and length <= 300:
+					points = list(range(0, length + 1))
 			else:
 				points = list(range(0, length + 1))
 			for n in points:
